@@ -45,6 +45,12 @@ def ts_rules(facts, rep):
                     "writing_to_extra_field is cleared before switch_to(): a failed switch cannot leave extra-data mode on a closed writer",
                     "end_extra_data calls the fallible switch_to() while writing_to_extra_field is still set: when it fails (unsupported method, level out "
                     "of range) the writer is closed with the flag set and the next finish()/start_file() panics in get_plain")
+    # the companion flag: central-only mode belongs to ONE entry's extra data and ends with it (a sticky flag would make the next
+    # entry's extra data skip its local copy and the compressor switch)
+    clears2 = [x for x in _flag_assigns(ee, "writing_to_central_extra_field_only") if x[3] == 0]
+    good = bool(clears2) and bool(sw) and all(any(ee.dominates(c[0], b) for c in clears2) for b, _ in sw)
+    ok &= rep.check(good, rule, "I1:clear-central-only", where(ee, ee.span), "writing_to_central_extra_field_only is cleared (after being read) before switch_to()",
+                    "end_extra_data no longer clears writing_to_central_extra_field_only: central-only mode leaks into the following entries")
     # validation happens before the flag is cleared and before anything is emitted
     va = calls_matching(ee, r"^write::validate_extra_data$")
     wa = calls_matching(ee, r"io::Write::write_all$")
@@ -112,6 +118,11 @@ def ts_rules(facts, rep):
     c1 = calls_matching(fin, ZW + "finalize$")
     un = calls_matching(fin, r"GenericZipWriter::<W>::unwrap$")
     good = bool(c1 and un) and fin.dominates(c1[0][0], un[0][0])
+    if good:
+        # ... on its SUCCESS edge: the unwrap is reached only through `finalize()?`'s Continue / a match arm for Ok
+        exfin = Ex(fin)
+        fs = dominating_facts(fin, exfin, un[0][0])
+        good = any(x[0] == "Eq" and x[1][0] == "discr" and any(y[0] == "call" and y[1].endswith("finalize") for y in walk(x[1])) and x[2][0] == "const" and x[2][2] == 0 for x in fs)
     ok &= rep.check(good, rule, "I2:unwrap-after-finalize", where(fin, fin.span), "sink unwrapped only after finalize()? succeeded", "finish() unwraps the sink without a successful finalize()")
     # ---------------- I3: entries are never removed; flags that promise a current entry are set only after one was pushed
     bad = []
